@@ -340,15 +340,22 @@ class C06(Prop):
     nontrivial_rule = ("random histories on real Resource/PriorityResource/PreemptiveResource objects: capacity 1-4, 2-8 scripted "
                        "driver processes, priorities from a 3-element set, preempt flags, request/yield/hold/release sessions, real "
                        "`with` blocks, cancels and with-exits of queued requests, double releases, releases of stale and of other "
-                       "processes' requests, delays from {0,1,2} so that operations coincide; non-trivial = at least 12 actions and at "
+                       "processes' requests, plain Process.interrupt() of other drivers (also aimed at a process whose grant is "
+                       "triggered but unprocessed, e.g. right after a yielded release), processes that end while holding a slot or "
+                       "queueing, delays from {0,1,2} so that operations coincide; non-trivial = at least 12 actions and at "
                        "least one request had to wait in the queue; distinct by hash of the case")
     trusted_base = ["the driver (props/c06.py) turns the observed execution into the model's action list: operations are logged by the "
                     "driver processes as they issue them, ProcessEvent micro-steps by inspecting env._queue[0] before every env.step(), "
                     "the state after a micro-step by a callback appended behind the resource's own callback",
-                    "CPython list.sort/sorted are stable (the model's ssort is a stable insertion sort)"]
+                    "CPython list.sort/sorted are stable (the model's ssort is a stable insertion sort)",
+                    "that the kernel processes every triggered event of the resource before the clock moves is C01's statement; here "
+                    "it is the admissibility of AAdvance, checked on every observed execution",
+                    "the model is one resource: the `resource` field of Preempted and the delivery of the Interruption into the "
+                    "victim's generator (kernel, C04) are checked by the monitor on the real code, not stated in Coq"]
     assumptions = ["each process holds or awaits at most one request of the resource (adm, checked on every observed history)",
                    "cancel()/__exit__ is called by the process that made the request, and not again on a request that was cancelled "
                    "before being granted (list.remove raises ValueError)",
+                   "an ended process issues no further operations (it may end holding a slot or queueing)",
                    "capacity >= 1 (the constructor rejects anything else)"]
     partial = []
 
